@@ -8,6 +8,7 @@ ops:  cfg <allowFiles 0|1> <allowUrls 0|1> <std|mmap>
       ref <mhhex> <path> <off> <size> | refbad <mhhex> | refdel <mhhex>   reference datastore (raw)
       fput <cid> <path> <off> <datahex>                FileManager.Put of a node at root/path
       vget <cid> | fmget <cid> | fsget <cid>
+      fmhas/fmsize/fshas/fssize <cid> | fsdel <cid> | fsput <cid> <hex> | fsputn <cid> <path> <off> <hex> | fskeys
 cid:  <ver>:<codec>:<mhhex> -/
 open C03
 
@@ -87,12 +88,16 @@ def showOut : Out → String
   | .fileError => "fileerror"
   | .notEnabled => "notenabled"
   | .error => "error"
+  | .bool b => toString b
+  | .size n => s!"size {n}"
+
+def sortStrings (l : List String) : List String := (l.toArray.qsort (· < ·)).toList
 
 def orBad (o : Option (St × String)) (st : St) : St × String := o.getD (st, "bad-op")
 
 def fpath (p : String) : Path := "/root/".toList ++ p.toList
 
-def stepLine (st : St) (line : String) : St × String :=
+partial def stepLine (st : St) (line : String) : St × String :=
   match (line.trimAscii.toString.splitOn " ").filter (· ≠ "") with
   | ["case", n] => ({}, s!"case {n}")
   | ["end"] => ({}, "end")
@@ -130,6 +135,38 @@ def stepLine (st : St) (line : String) : St × String :=
   | ["vget", c] => orBad (do pure (st, showOut (validatingGet (world st) (← parseCid c)))) st
   | ["fmget", c] => orBad (do pure (st, showOut (fmGet (world st) (← parseCid c)))) st
   | ["fsget", c] => orBad (do pure (st, showOut (filestoreGet (world st) (← parseCid c)))) st
+  | ["isurl", t] => orBad (do
+      let b ← unhex t
+      pure (st, toString (isURL (b.map fun x => Char.ofNat x.toNat)))) st
+  | ["fmhas", c] => orBad (do pure (st, showOut (fmHas (world st) (← parseCid c)))) st
+  | ["fmsize", c] => orBad (do pure (st, showOut (fmGetSize (world st) (← parseCid c)))) st
+  | ["fshas", c] => orBad (do pure (st, showOut (filestoreHas (world st) (← parseCid c)))) st
+  | ["fssize", c] => orBad (do pure (st, showOut (filestoreGetSize (world st) (← parseCid c)))) st
+  | ["fsdel", c] => orBad (do
+      let c ← parseCid c
+      pure ({ st with inner := st.inner.filter (·.1 ≠ c.mh), refs := st.refs.filter (·.1 ≠ c.mh) }, "ok")) st
+  | ["fsputm", c, d] => stepLine st s!"fsput {c} {d}"          -- Filestore.PutMany of one block = Put
+  | ["fsputnm", c, p, off, d] => stepLine st s!"fsputn {c} {p} {off} {d}"
+  | ["fsput", c, d] => orBad (do
+      let c ← parseCid c
+      let d ← unhex d
+      match filestorePutTarget (world st) c false with
+      | .blockstore => pure ({ st with inner := upsert st.inner c.mh d }, "ok")
+      | .failed => pure (st, "error")
+      | _ => pure (st, "ok")) st
+  | ["fsputn", c, p, off, d] => orBad (do
+      let c ← parseCid c
+      let o ← off.toNat?
+      let d ← unhex d
+      match filestorePutTarget (world st) c true with
+      | .fileManager =>
+        match fmPutFile st.allowFiles p.toList o d with
+        | none => pure (st, "notenabled")
+        | some dobj => pure ({ st with refs := upsert st.refs c.mh (.ref dobj) }, "ok")
+      | .failed => pure (st, "error")
+      | _ => pure (st, "ok")) st
+  | ["fskeys"] =>
+    (st, "keys " ++ ",".intercalate (sortStrings ((st.inner.map (·.1)) ++ (st.refs.map (·.1)) |>.map hex)))
   | _ => (st, "bad-op")
 
 partial def loop (h : IO.FS.Stream) (out : IO.FS.Stream) (st : St) : IO Unit := do
